@@ -395,7 +395,13 @@ func init() {
 					if len(samples) < 4 && d == 1 {
 						samples = append(samples, map[string]any{"requests": fmt.Sprint(meta[i].ops), "stored_balances_after": o.Bals})
 					}
-					if !seen[o.Key] {
+					wrapped := false
+					for _, f := range o.Finds {
+						if f.Rule == "stored-balance/refund-beyond-int64" {
+							wrapped = true // (known finding) what is stored now is not a balance: the history is not extended
+						}
+					}
+					if !seen[o.Key] && !wrapped {
 						seen[o.Key] = true
 						states++
 						// successor balances from the observed store
